@@ -71,7 +71,7 @@ def decode(data):
 # ------------------------------------------------------------------------------------------
 # scenarios
 
-INSTANCES = ["svc", "My Svc", "a", "x" * 61, "x" * 62, "x" * 63, "café", "svc-2", "日本"]
+INSTANCES = ["svc", "My Svc", "a", "x" * 61, "x" * 62, "x" * 63, "café", "svc-2", "日本", "Living.Room", "a.b.c"]  # an instance name may contain dots (RFC 6763 §4.3)
 TYPES = ["_http._tcp.local.", "_x._udp.local.", "_HTTP._tcp.local.", "_X._udp.local."]  # types are case-insensitive: the cache files them lower-cased
 BIG_TXT = (b"\xfa" + b"k=" + b"v" * 248) * 6  # 1506 bytes of TXT rdata: the record needs a datagram of its own (> 1460 bytes)
 V4 = ["0a000001", "0a000002", "c0a80105"]
